@@ -268,7 +268,12 @@ fn locate_end(b: &[u8], opts: &StrictOpts, errors: &mut Vec<String>, warnings: &
         if off32 == M32 { sent.push("directory offset 0xFFFFFFFF"); }
         if !sent.is_empty() {
             let m = format!("missing ZIP64 end records: the end record holds the marker value(s) {} but no ZIP64 locator precedes it", sent.join(", "));
-            if opts.sentinel_requires_zip64 { errors.push(m); } else { warnings.push(m); }
+            // APPNOTE asks for the marker (and the ZIP64 records) when a field is "too small to hold required data":
+            // a value that EQUALS 0xFFFF / 0xFFFFFFFF fits, so the literal reading is legal - provided it is consistent
+            // (the directory the fields name ends exactly at the end record; the record count is checked by the
+            // directory walk). Exactly 65535 entries without ZIP64 records is such an archive.
+            let literal_ok = opts.pos(off32).and_then(|s| s.checked_add(size32)) == Some(p as u64);
+            if opts.sentinel_requires_zip64 && !literal_ok { errors.push(m); } else { warnings.push(m); }
         }
         return Some(info);
     }
@@ -873,7 +878,13 @@ mod tests {
         let mut b = archive(&[stored(b"a", b"xx")], b"");
         let p = b.len() - 22;
         b[p + 8] = 0xFF; b[p + 9] = 0xFF; b[p + 10] = 0xFF; b[p + 11] = 0xFF;
-        assert!(has(&errs(&b, &StrictOpts::default()), "missing ZIP64 end records"));
+        // the literal reading (65535 entries) is legal as such, but this directory holds one record: still an error
+        assert!(!errs(&b, &StrictOpts::default()).is_empty());
+        // a marker whose literal reading is inconsistent (directory offset 0xFFFFFFFF in a 100-byte file) needs ZIP64 records
+        let mut b2 = archive(&[stored(b"a", b"xx")], b"");
+        let p2 = b2.len() - 22;
+        b2[p2 + 16] = 0xFF; b2[p2 + 17] = 0xFF; b2[p2 + 18] = 0xFF; b2[p2 + 19] = 0xFF;
+        assert!(has(&errs(&b2, &StrictOpts::default()), "missing ZIP64 end records"));
         // malformed extra field
         let mut e = stored(b"a", b"xx");
         e.cextra = vec![0xfe, 0xca, 5, 0, 1];
